@@ -101,8 +101,48 @@ func vRowTypeTree(depth int) TypeInfo {
 	return nat(TypeInt)
 }
 
+// the same through the real type descriptor reader: a CUSTOM type (id 0) whose class string is one of
+// the marshal classes the reader maps to native ids - including the bare composite ones
+var vCustomClasses = []string{"TupleType", "ListType", "SetType", "MapType", "Int32Type", "BytesType", "DurationType", "NoSuchType"}
+
+func vWireCustomType() (ti TypeInfo, ok bool) {
+	k := vChoose("custom_class", len(vCustomClasses))
+	cls := "org.apache.cassandra.db.marshal." + vCustomClasses[k]
+	e := &vEnc{}
+	e.u16(0)
+	e.str(cls)
+	switch vCustomClasses[k] {
+	case "TupleType":
+		e.u16(1)
+		e.u16(9) // tuple<int>, should the reader go on to read element types
+	case "ListType", "SetType":
+		e.u16(9)
+	case "MapType":
+		e.u16(9)
+		e.u16(9)
+	}
+	f := &framer{proto: 4, buf: e.b, header: &frameHeader{version: 0x84, op: opResult}}
+	defer func() {
+		if r := recover(); r != nil {
+			if _, isRT := r.(interface{ RuntimeError() }); isRT {
+				panic(r)
+			}
+			ti, ok = nil, false // the reader refused the descriptor (parseFrame turns this into an error)
+		}
+	}()
+	return f.readTypeInfo(), true
+}
+
 func vh_row_data_types() {
-	ti := vRowTypeTree(vBound("depth"))
+	var ti TypeInfo
+	if vBool("type_comes_from_the_wire_as_custom") {
+		var ok bool
+		if ti, ok = vWireCustomType(); !ok {
+			return
+		}
+	} else {
+		ti = vRowTypeTree(vBound("depth"))
+	}
 	cells := 1
 	if t, ok := ti.(TupleTypeInfo); ok {
 		cells = len(t.Elems)
